@@ -291,7 +291,7 @@ static inline void vh_parse_args(vh_args_t *a, int argc, char **argv)
     } else if (!strcmp(argv[i], "--verbose")) {
       vh_verbose = 1;
     } else if (!strcmp(argv[i], "--opt") && i + 1 < argc && a->nopts < 32) {
-      char *kv = strdup(argv[++i]);
+      char *kv = argv[++i]; /* split in place: argv is writable and outlives us */
       char *eq = strchr(kv, '=');
       if (eq) {
         *eq = 0;
